@@ -2,6 +2,15 @@ module hmod
 
 go 1.23.0
 
-require github.com/cloudflare/pat-go v0.0.0
+require (
+	github.com/cloudflare/circl v1.3.7
+	github.com/cloudflare/pat-go v0.0.0
+)
+
+require (
+	github.com/bwesterb/go-ristretto v1.2.3 // indirect
+	golang.org/x/crypto v0.35.0 // indirect
+	golang.org/x/sys v0.30.0 // indirect
+)
 
 replace github.com/cloudflare/pat-go => /repo
